@@ -151,6 +151,119 @@ def expected_after(ms, edits):
     return [(n, f(sl), sc, f(el), ec, ln) for (n, sl, sc, el, ec, ln) in ms]
 
 
+# ---- size ladder: files of 10^2 .. 10^4 lines x 10 .. 10^5 simultaneous insertions -----------------------------------
+
+def ladder_comment(lang, rnd, trailing=False):
+    """C / C++: comment texts without the delimiters of KF2 (with thousands of insertions one of them always lands inside
+    a multi-line parameter list, and the known finding would hide everything else)"""
+    if lang in ("C", "C++"):
+        return rnd.choice(["// note", "/* block */", "// x nocl", "/* a */ /* b */", "//"] + ([] if trailing else ["// nocl", "/* nocl */", "//NoCl"]))
+    return comment_for(lang, rnd, trailing)
+
+
+def many_edits(lang, rnd, boundaries, trail, n):
+    """n insertions, drawn one after the other (the first k of them are the same for every n >= k): comment-only lines
+    in every style, blank / whitespace-only lines, two-line block comments, trailing comments and blanks; any number of
+    them at the same boundary"""
+    edits = []
+    trailed = set()
+    for _ in range(n):
+        r = rnd.random()
+        if r < 0.12 and boundaries:
+            edits.append(("blank", rnd.choice(boundaries), rnd.choice(["", "   ", "\t", "\x0c", "\u2028"])))
+        elif r < 0.80 and boundaries:
+            edits.append(("comment", rnd.choice(boundaries), " " * rnd.choice([0, 2, 4, 8]) + ladder_comment(lang, rnd)))
+        elif r < 0.85 and boundaries and lang not in ("Python", "C", "C++"):
+            edits.append(("block2", rnd.choice(boundaries), None))
+        elif trail:
+            k = rnd.choice(trail)
+            if k not in trailed:
+                trailed.add(k)
+                edits.append(("trail", k, " " * rnd.randint(1, 3) + ladder_comment(lang, rnd, True)))
+            elif boundaries:
+                edits.append(("comment", rnd.choice(boundaries), ladder_comment(lang, rnd)))
+        elif boundaries:
+            edits.append(("comment", rnd.choice(boundaries), ladder_comment(lang, rnd)))
+    return edits
+
+
+def ladder_descs(ctx):
+    if getattr(ctx, "_c04ladder", None) is None:
+        rnd = ctx.rng("c04ladder-edits")
+        out = []
+        files = scan_streams.ladder_programs(ctx, ctx.pick([], [3162]), ctx.pick([100, 1000], [100, 1000, 10 ** 4]), "c04ladder",
+                                             many_python=ctx.pick([100, 1000], [100, 1000, 3162]))
+        for (lang, text, o, d) in files:
+            for n in scan_streams.rungs(10, 10 ** 5, True):
+                out.append(dict(d, insertions=n, edit_seed=rnd.getrandbits(48)))
+        ctx._c04ladder = out
+    return ctx._c04ladder
+
+
+def ladder_variant(desc):
+    """-> (language, original text, variant text, edits)"""
+    import random
+    lang = desc["language"]
+    code = scan_streams.ladder_program(desc)[1]
+    b, t = safe_points(lang, code)
+    edits = many_edits(lang, random.Random(desc["edit_seed"]), b, t, desc["insertions"])
+    return lang, code, apply_edits(code, edits), edits
+
+
+def fast_expected(ms, edits):
+    """expected_after for many edits: prefix sums instead of one pass over the edits per line"""
+    from bisect import bisect_left
+    counts = {}
+    for (kind, k, text) in edits:
+        if kind != "trail":
+            counts[k] = counts.get(k, 0) + (2 if kind == "block2" else 1)
+    ks = sorted(counts)
+    pre = [0]
+    for k in ks:
+        pre.append(pre[-1] + counts[k])
+    f = lambda l: l + pre[bisect_left(ks, l)]
+    return [(n, f(sl), sc, f(el), ec, ln) for (n, sl, sc, el, ec, ln) in ms]
+
+
+def _ladder_work(desc):
+    """real analysis of original and variant; -> None if the property holds, else (observed, required, kind, functions)"""
+    lang, code, v, edits = ladder_variant(desc)
+    o = sr.decode_scan(sr.real_scan(lang, code))
+    r = sr.real_scan(lang, v)
+    d = sr.decode_scan(r)
+    if o is None:
+        return {"functions": 0, "bad": None}
+    want = fast_expected(o[0], edits)
+    got = d[0] if d else r
+    if got == want:
+        return {"functions": len(o[0]), "bad": None}
+    return {"functions": len(o[0]), "bad": ("%d functions reported; first differences: %s" % (len(got), [x for x in got if x not in set(want)][:3]) if d else r[:200],
+                                            "%d functions; e.g. %s" % (len(want), [x for x in want if d is None or x not in set(got)][:3]),
+                                            "lexer" if lexer_changed(lang, code, v) else "pipeline")}
+
+
+def ladder_failures(ctx, dist=None, started=None):
+    jobs = sorted(ladder_descs(ctx), key=lambda d: -(d["lines"] + d["insertions"]))
+    fails = []
+    nontrivial = 0
+    for d, res in zip(jobs, (started or scan_streams.Heavy(_ladder_work, jobs, 12)).results()):
+        if dist is not None:
+            key = "%d lines x %d insertions" % (d["lines"], d["insertions"])
+            dist["ladder"][key] = dist["ladder"].get(key, 0) + 1
+        nontrivial += 1 if res["functions"] else 0
+        if res["bad"]:
+            fails.append({"input": dict(d), "observed": res["bad"][0], "required": res["bad"][1], "kind": res["bad"][2]})
+    fails.sort(key=lambda f: (f["input"]["lines"], f["input"]["insertions"]))
+    for f in fails[:2]:
+        # fewest insertions (a prefix of the same edit list) that still fail
+        d = f["input"]
+        small = scan_streams.bisect_size(lambda k, d=d: bool(_ladder_work(dict(d, insertions=k))["bad"]), 0, d["insertions"], budget_s=10.0)
+        bad = _ladder_work(dict(d, insertions=small))["bad"]
+        if bad:
+            f.update({"input": dict(d, insertions=small, found_at_insertions=d["insertions"]), "observed": bad[0], "required": bad[1], "kind": bad[2]})
+    return len(jobs), nontrivial, fails[:6]
+
+
 def base_cases(ctx):
     out = [(l, t) for (l, t, _) in scan_streams.canonical(ctx, ctx.pick(40, 120), "c04")]
     out += [(l, t) for (l, t) in scan_streams.corpus_cases() if len(t) < 30000]
@@ -158,6 +271,7 @@ def base_cases(ctx):
 
 
 def _correspond_programs(ctx):
+    heavy = scan_streams.Heavy(_ladder_work, sorted(ladder_descs(ctx), key=lambda d: -(d["lines"] + d["insertions"])), 12)
     rnd = ctx.rng("edits")
     base = base_cases(ctx)
     variants = []
@@ -206,9 +320,12 @@ def _correspond_programs(ctx):
             nontrivial.add((lang, v))
         for e in edits:
             dist["edits"][e[0]] = dist["edits"].get(e[0], 0) + 1
+    dist["ladder"] = {}
+    nladder, lnontrivial, lfails = ladder_failures(ctx, dist, heavy)
+    fails = lfails + fails
     return {
-        "evaluations": len(variants), "distinct_nontrivial": len(nontrivial),
-        "rule": "canonical programs and the vendored corpus x 1..5 simultaneous insertions (blank line, whitespace-only line, comment-only line in every comment style of the language incl. two-line block comments, trailing comment, trailing blanks) at token-safe points computed from the real lexer's token stream (thorough: additionally every safe point of every file of at most 100 lines); oracle: analysis of the variant = analysis of the original with every line shifted by the number of lines inserted above it; non-trivial = distinct variants of files with at least one function",
+        "evaluations": len(variants) + nladder, "distinct_nontrivial": len(nontrivial) + lnontrivial,
+        "rule": "size ladder: generated files of 10^2 .. 10^4 lines (many functions; thorough: also one function of 3162 lines) x 10, 10^2, 10^3, 10^4, 10^5 simultaneous insertions (any number at the same point), real analysis before and after, direct oracle only; canonical programs and the vendored corpus x 1..5 simultaneous insertions (blank line, whitespace-only line, comment-only line in every comment style of the language incl. two-line block comments, trailing comment, trailing blanks) at token-safe points computed from the real lexer's token stream (thorough: additionally every safe point of every file of at most 100 lines); oracle: analysis of the variant = analysis of the original with every line shifted by the number of lines inserted above it; non-trivial = distinct variants of files with at least one function",
         "samples": [{"language": l, "edits": e, "original": originals[(l, c)][:80], "variant": r[:80]} for (l, c, v, e), r in list(zip(variants, vr))[5:8]],
         "exhaustive": False, "distribution": dist,
         "disagreements": dis[:50], "oracle_failures": fails[:50],
@@ -237,11 +354,15 @@ def search(ctx, hints):
             fails.append({"input": {"language": lang, "code": code, "edits": [list(e) for e in edits]}, "observed": r[:200], "required": str(want)[:200],
                           "kind": "lexer" if lexer_changed(lang, code, v) else "pipeline"})
     fails.sort(key=lambda f: len(f["input"]["code"]) + 50 * len(f["input"]["edits"]))
-    return fails[:8]
+    return fails[:8] + ladder_failures(ctx)[2][:3]
 
 
 def replay(payload):
     inp = payload["input"]
+    if inp.get("stream") == "ladder":
+        res = _ladder_work(inp)
+        print("%s: generated file of >= %d lines, %d insertions -> %s" % (inp["language"], inp["lines"], inp["insertions"], res["bad"] or "unchanged up to the line shift"))
+        return not res["bad"]
     edits = [tuple(e) for e in inp["edits"]]
     o = sr.decode_scan(sr.real_scan(inp["language"], inp["code"]))
     v = apply_edits(inp["code"], edits)
